@@ -1,8 +1,8 @@
 import FiberModel.C15.Frame
 /-
 C15 — the absolute deadline of a session is fixed: for as long as an id yields data, the absolute deadline
-stored with it is the one it had — no request (inside the domain of the oracle: no `Save` after `Destroy`,
-no second `store.Get`) extends, shortens or drops it. Together with `fresh_otherwise` (a new session gets
+stored with it is the one it had — no request (inside the domain of the oracle: no `Save` after `Destroy`;
+any number of `store.Get` per request) extends, shortens or drops it. Together with `fresh_otherwise` (a new session gets
 `now + AbsoluteTimeout`) and `absolute_timeout_ends_session` this is "absolute timeouts end sessions"
 whatever the activity on the session.
 -/
@@ -206,9 +206,9 @@ theorem AbsH.put {d : Bool} {h : HSt} (ha : AbsH gen id A d h) {c' : RCtx} (hc :
     exact hs hd hid
 
 /-- one handler action keeps the absolute deadline stored under `id` (inside the domain: `Save` only while
-    nothing was destroyed in this request, `store.Get` at most once) -/
-theorem act_abs {h : HSt} {l d : Bool} (viaMw : Bool) (ha : AbsH gen id A d h) (a : Act)
-    (hal : actAllowed viaMw l d a = true) : AbsH gen id A (nextD d a) (act cfg gen h a).1 := by
+    nothing was destroyed in this request; `store.Get` any number of times) -/
+theorem act_abs {h : HSt} {d : Bool} (ha : AbsH gen id A d h) (a : Act)
+    (hal : actAllowed d a = true) : AbsH gen id A (nextD d a) (act cfg gen h a).1 := by
   cases a with
   | storeGet =>
     simp only [act, nextD]
@@ -318,16 +318,16 @@ theorem act_abs {h : HSt} {l d : Bool} (viaMw : Bool) (ha : AbsH gen id A d h) (
           · rfl
           · exact ha.c.pool d' hd'
 
-theorem runScript_abs (viaMw : Bool) (as : List Act) :
-    ∀ (h : HSt) (l d : Bool), AbsH gen id A d h → scriptInDomain viaMw l d as = true →
+theorem runScript_abs (as : List Act) :
+    ∀ (h : HSt) (d : Bool), AbsH gen id A d h → scriptInDomain d as = true →
       AbsH gen id A (as.foldl nextD d) (runScript cfg gen h as).1 := by
   induction as with
-  | nil => intro h l d ha _; exact ha
+  | nil => intro h d ha _; exact ha
   | cons a as ih =>
-    intro h l d ha hdom
+    intro h d ha hdom
     simp only [scriptInDomain, Bool.and_eq_true] at hdom
     simp only [runScript, List.foldl]
-    exact ih _ _ _ (act_abs viaMw ha a hdom.1) hdom.2
+    exact ih _ _ (act_abs ha a hdom.1) hdom.2
 
 /-- the state between requests: what `id` yields carries `A`; `id` is not generated again; pool clean -/
 structure AbsSt (gen : Nat → Bytes) (id : Bytes) (A : Option Nat) (st : St) : Prop where
@@ -356,7 +356,7 @@ theorem get_adv_some {st : St} {b : SData} {d : Nat}
         · cases h
 
 theorem handle_abs {st : St} (ha : AbsSt gen id A st) (q : Req)
-    (hdom : scriptInDomain q.viaMw false false q.script = true) : AbsSt gen id A (handle cfg gen st q).1 := by
+    (hdom : scriptInDomain false q.script = true) : AbsSt gen id A (handle cfg gen st q).1 := by
   have hc0 : AbsC gen id A ({ st := st, ck := q.ck, hd := q.hd, qr := q.qr } : RCtx) :=
     ⟨ha.store, ha.never, (by intro i hi; cases hi), ha.pool⟩
   have h0 : AbsH gen id A false (startReq cfg gen st q) := by
@@ -368,7 +368,7 @@ theorem handle_abs {st : St} (ha : AbsSt gen id A st) (q : Req)
       · intro _ s hs hid; simp only [Option.some.injEq] at hs; subst hs; exact this.2 hid
       · intro _ s hs; cases hs
     · exact ⟨hc0, (by intro _ s hs; cases hs), (by intro _ s hs; cases hs)⟩
-  have h1 := runScript_abs (cfg := cfg) q.viaMw q.script _ _ _ h0 hdom
+  have h1 := runScript_abs (cfg := cfg) q.script _ _ h0 hdom
   unfold handle
   simp only
   split
